@@ -8,6 +8,8 @@ Transliterates, from /repo/ear/core:
   * `np.interp` on a four-point table (numpy `arr_interp` + `binary_search_with_guess`,
     linear-search branch for tables of length <= 4)                                       -> `interp4`
   * `screen_scale.PolarScreenScaler.scale_az_el` (+ the `interp_sorted` assertion)       -> `scaleAzEl`
+  * `PolarScreenScaler.scale_position`, `ScreenScaleHandler.handle` (polar branch), with the
+    polar/Cartesian conversions as parameters                                             -> `scalePosition`, `screenHandlePolar`
 -/
 import Earverif.Model.Zone
 
@@ -144,5 +146,21 @@ def scaleAzEl {α : Type} [Scalar α] (ref rep : Edges α) (az el : α) : Option
   else if !(le n90 ref.bottom && le ref.bottom ref.top && le ref.top p90) then none
   else some (interp4 n180 ref.right ref.left p180 n180 rep.right rep.left p180 az,
              interp4 n90 ref.bottom ref.top p90 n90 rep.bottom rep.top p90 el)
+
+/-- `PolarScreenScaler.scale_position(position)`:
+`az, el, distance = azimuth(position), elevation(position), np.linalg.norm(position)`;
+`cart(*scale_az_el(az, el), distance)`.  The conversions `geom.azimuth`, `geom.elevation`,
+`np.linalg.norm` and `geom.cart` (trigonometry; property C19's subject) are parameters. -/
+def scalePosition {α : Type} [Scalar α] (azimuth elevation norm : P3 α → α) (cart : α → α → α → P3 α)
+    (ref rep : Edges α) (p : P3 α) : Option (P3 α) :=
+  (scaleAzEl ref rep (azimuth p) (elevation p)).map fun ae => cart ae.1 ae.2 (norm p)
+
+/-- `ScreenScaleHandler.handle(position, screenRef, reference_screen, cartesian=False)`: `rep = none`
+is `self.reproduction_screen is None`. -/
+def screenHandlePolar {α : Type} [Scalar α] (azimuth elevation norm : P3 α → α) (cart : α → α → α → P3 α)
+    (screenRef : Bool) (ref : Edges α) (rep : Option (Edges α)) (p : P3 α) : Option (P3 α) :=
+  match screenRef, rep with
+  | true, some r => scalePosition azimuth elevation norm cart ref r p
+  | _, _ => some p
 
 end Earverif.Lock
